@@ -170,7 +170,7 @@ func C11(tier rt.Tier) int {
 			{name: "shared-values-3keys", shared: true, keys: []int{0, 1, 5}, vals: []string{"a", "b"}, levels: []int{0, 64}, gc: true, depth: 7, c11: true, maxNoDup: 4},
 		}
 	} else {
-		per = 8 * time.Minute
+		per = 4 * time.Minute
 		runs = []cfg{
 			{name: "1key-very-deep", keys: []int{0}, vals: []string{"a", "b"}, levels: []int{0, 1}, gc: true, depth: 16, c11: true, maxNoDup: 8},
 			{name: "2keys-very-deep", keys: []int{0, 4}, vals: []string{"a", "b"}, levels: []int{0, 1}, gc: true, depth: 12, c11: true, maxNoDup: 7},
